@@ -325,7 +325,7 @@ class Run:
                 import time as _t
                 op["a"]["now"] = int(_t.time())
                 op["a"]["zone"] = zone_rules(scn.get("zone", "UTC"), op["a"]["now"], span_days=op["a"].get("span", 5))
-                if op["op"] == "get_schedules" and op["a"]["now"] >= FAR_BASE + 86400 * 14:
+                if op["op"] == "get_schedules" and op["a"]["now"] >= 2 ** 31 - 86400 * 40:
                     # after 2038 (TLC's integers are 32-bit): instants and zone rules are counted from a base that is a whole
                     # number of weeks after the epoch (Schedule!Rel)
                     op["a"]["base"] = [FAR_BASE >> 16, FAR_BASE & 0xFFFF]
